@@ -1,44 +1,73 @@
 CHECK = dict(
     level='model_checking', distinct_global=True,
-    parts=[dict(name='c19', src=['harness/c19_rotenc.c'], workers=16,
+    parts=[dict(name='c19', src=['harness/c19_rotenc.c'], lib=['rotenc.c'], workers=16,
                 deadline=dict(quick=120, thorough=900))],
-    rule='two exhaustive enumerations over the real rotenc.c. Part 1 (16 partitions = (last_state,next) pairs): every '
-         'reachable start state (last_state x 16-bit internal position x latched count) x next state, then every second '
-         'next state; each decode step is compared with the Gray-cycle model (+1 clockwise / -1 anticlockwise / 0 for '
-         'repeat and two-bit jump; count latched iff the new state is the detent, otherwise unchanged; low 8 bits of '
-         'count14 == count). Part 2 (one worker): vx_bfs to a fixpoint from ROTENC_VAR_INIT over all input sequences on '
-         'the ghost-augmented machine (rotenc_t + wide true position T + wide true latched position L + "no invalid jump '
-         'yet" flag), a step being enabled while |T - 4L| <= 4W quarter steps; after every decode internal == T mod 2^16, '
-         'rotenc_count == L mod 256, rotenc_count14 == L mod 2^14, low bytes agree, and for jump-free histories both '
-         'readings lie within one click of T/4. A BFS state is distinct when (rotenc_t fields, T mod 2^16, T-4L, flag) '
-         'differs; "distinct" counts distinct observation tuples (input, internal_count, count, count14) with a hash set.',
-    bounds=dict(quick='part 1: all 4 x 65536 (last_state, position) pairs x 8 latched-count values (0,1,127,128,254,255, '
-                      'current clicks, clicks+1) x 4 next x 4 second-next states; part 2: complete reachable state space '
-                      '(fixpoint, histories of every length) for drift window W = 2 clicks - covers every position 0..65535',
-                thorough='part 1: all 4 x 65536 x 256 start states x 4 x 4 next states (2^28 start points, unreachable '
-                         'ones skipped and counted); part 2: fixpoint for drift window W = 100 clicks'),
+    rule='rotenc.c is linked as an object of its own and used through <librfn/rotenc.h> only; every decoder state is reached by '
+         'real rotenc_decode calls from ROTENC_VAR_INIT (no field of rotenc_t is written by the harness, no field order, width '
+         'or completeness is assumed; only internal_count is read, and judged by differences modulo 2^16); a copy of a state is '
+         'the whole rotenc_t image plus every static of rotenc.c. One step function drives the real code and a wide-integer '
+         'ghost (true position T in quarter steps, true latched position L in clicks = floor(T/4) at the last decode of the '
+         'detent state, "no invalid jump yet" flag) over 5 operations - decode(0..3) followed by rotenc_count, and "r" = '
+         'rotenc_count14 as a pure read. After a decode: position moved by exactly +1 clockwise / -1 anticlockwise / 0 for a '
+         'repeat or two-bit jump; rotenc_count (read into an unsigned) <= 255 and == L mod 256; within one click of T/4 for '
+         'jump-free histories. After a read: neither the position nor rotenc_count moved; count14 <= 0x3fff; count14 == L mod '
+         '2^14 while |T - 4L| <= 4*127 quarter steps; low 8 bits == rotenc_count; within one click of T/4 for jump-free '
+         'histories. Enumerations: (seq) vx_bfs to a fixpoint from reset over all sequences of the 5 operations, a decode '
+         'enabled while afterwards |T - 4L| <= 4W quarter steps; a BFS state is distinct when (whole rotenc_t image, statics of '
+         'rotenc.c, T mod 2^16, T-4L, previous state, flag) differs, so states that differ in a hidden field or static are never '
+         'merged, and every read pattern (never, once, twice in a row, after any number of decodes) is part of the space. '
+         '(step) from every reachable decoder state (last_state x 16-bit position x latched count; visited by real paths: plain '
+         'rotation either way around the whole 16-bit circle started on either phase, and per latched count a rotation to that '
+         'click followed by detent-avoiding laps 2,1,3 / 1,2,3 around the whole circle) decode(0..3), read, decode(0..3), read on '
+         'copies. (walk) 8 walkers (cw/acw x started with/without an invalid jump x reading count14 after every decode / never, '
+         'the never-reading ones read twice on a throw-away copy at every step) around the whole 14-bit click circle; at bases '
+         '(arrivals at the detent): (drift) 6 lap patterns that never visit the detent (3,2,1 / 3,1,2 / 1,3,2 / 2,3,1 / 1,2,3 / '
+         '2,1,3) out to +-127 clicks from the latch, count14 against the ghost latch after every decode; (gap) 300 clicks of '
+         'rotation either way without reading count14 on the main line, read twice on a copy at every step; (rest) each of the 4 '
+         'states polled 301 times, every one-decode continuation on a copy after each poll. (dwell) every prefix of <= P decodes '
+         'from reset x each of the 4 states polled N times x main line reading / never reading x after each poll every '
+         'continuation of <= Q decodes on copies. "distinct" counts distinct observation tuples (operation, position mod 2^16, '
+         'count, count14) of the search with a hash set.',
+    bounds=dict(quick='seq: complete reachable state space (fixpoint, histories of every length) for drift window W = 3 clicks - covers '
+                      'every position 0..65535; step: 4 rotation paths + 2 lap paths for each latched count in {0,1,2,31,32,63,64,65,'
+                      '127,128,129,191,192,193,254,255}, every state on them probed two decodes deep; walk: all 16384 clicks (+3) per '
+                      'walker; drift bases: within 2 clicks of every multiple of 128 clicks plus every offset -128..127 around clicks 0 '
+                      '(14/16-bit wrap), 128, 256, 8192 and 16128; gap and rest bases: within 1 click of every multiple of 128; dwell: '
+                      'P=4, N=301, Q=2 and P=2, N=66001, Q=1',
+                thorough='seq: fixpoint for drift window W = 100 clicks; step: all 256 latched counts; drift bases: every click '
+                         '0..16383; gap and rest bases: within 2 clicks of every multiple of 128; dwell: P=6, N=301, Q=3 and P=3, '
+                         'N=66001, Q=1'),
     assumptions=['inputs are 2-bit states 0..3; the decoder starts from ROTENC_VAR_INIT with the encoder resting at the detent '
                  'state (true position 0, latched position 0)',
                  'clockwise is the cycle 00 -> 01 -> 11 -> 10 -> 00 named in rotenc.c; the detent state is 00',
-                 'scope of the "readings equal the latched position" clauses: the true position stays within W clicks of '
-                 'the last detent reading (with invalid jumps the drift is otherwise unbounded and no 8-bit latch could be right)',
+                 'scope of "count14 equals the latched position": the true position is within 127 clicks of the last detent '
+                 'reading (W clicks in the search) - with invalid jumps the drift is otherwise unbounded and no 8-bit latch next to '
+                 'a live position could be extended; rotenc_count == L mod 256, the low-8-bit agreement and the range of both '
+                 'readings are judged at any drift',
                  'the "never more than one click from the true position" clause is checked only for histories without an '
                  'invalid two-bit jump (after a jump the detent no longer sits on a multiple of four quarter steps, and '
                  'even the exact latched value may be up to 1.5 clicks away)',
-                 'part 1 writes the public fields of rotenc_t directly to place the decoder in each start state; states '
-                 'with last_state == detent but count != position/4 are unreachable and skipped (counted)'],
+                 'the internal position is the field internal_count taken modulo 2^16 and judged by its change per decode; '
+                 'hidden per-object or static counters are covered up to 66000 identical polls (dwell) and, inside the search, to any '
+                 'depth the state cap 65536*(8W+2) allows'],
 )
 CHECK.update(
-    technique='explicit-state model checking: exhaustive one/two-step transition check over all decoder states plus BFS to a '
-              'fixpoint over input sequences of the ghost-augmented decoder against a wide-integer position model',
-    level_text='Part 2 reaches a fixpoint: the complete reachable state space of the real rotenc_decode/rotenc_count/'
-               'rotenc_count14 under all sequences of the four 2-bit states (repeats, bounce, invalid jumps) with the true '
-               'position kept within W clicks (2 quick / 100 thorough) of the last detent reading; every 16-bit position and '
-               'therefore the 8-, 14- and 16-bit wrap points are crossed in both directions (counted). Part 1 checks the '
-               '+1/-1/0 rule and the latch rule from every decoder state independently of reachability from reset.',
+    technique='explicit-state model checking: BFS to a fixpoint over operation sequences (decodes and reads) of the ghost-augmented '
+              'decoder against a wide-integer position model, plus bounded-exhaustive scripted families (every reachable decoder '
+              'state two decodes deep, drift laps to +-127 clicks, read gaps, long dwells) through the same step oracle',
+    level_text='The search reaches a fixpoint: the complete reachable state space of the real rotenc_decode/rotenc_count/'
+               'rotenc_count14 (linked as a separate object, whole rotenc_t image and library statics part of every state) under '
+               'all sequences of the four 2-bit states and of count14 reads (repeats, bounce, invalid jumps, any read pattern) '
+               'with the true position kept within W clicks (3 quick / 100 thorough) of the last detent reading; every 16-bit '
+               'position and therefore the 8-, 14- and 16-bit wrap points are crossed in both directions (counted). The step '
+               'family checks the +1/-1/0 rule and the latch rule two decodes deep from every reachable (last_state, position, '
+               'latched count) state; the drift family checks count14 against the latch out to +-127 clicks next to every multiple '
+               'of 128 clicks (every click in thorough); the dwell and rest families poll one state up to 66001 times.',
     level_note='Trusted: the Gray-cycle reference model, the wide-integer ghost and the argument that (T mod 2^16, T-4L) is a '
-               'sufficient canonical form. The drift window W bounds the sequences covered by the latched-reading clauses.',
+               'sufficient canonical form next to the whole object image. The drift window W bounds the sequences the search '
+               'covers; beyond it the scripted families cover the stated lap patterns only.',
     design_ref='DESIGN.md section 4, C19',
 )
 
 CHECK['variants'] = ['c19']
+CHECK['variant_unsigned_char'] = True
